@@ -61,7 +61,8 @@ fn run_script(dom: &ModelDom, script: Id, action: u8) -> bool {
         let nodes = dom.nodes.borrow();
         let mut v = vec![];
         let mut cur = script;
-        while let Some(p) = nodes[cur].parent {
+        // (a template's contents continue with the template element itself)
+        while let Some(p) = nodes[cur].parent.or(nodes[cur].host) {
             v.push(p);
             cur = p;
             if v.len() > 64 {
